@@ -53,6 +53,9 @@ type poolObs struct {
 	active   map[int64]int
 	finished []int
 	nextID   int64
+	// size the administrator is in the middle of setting (-1 = none): between the moment the request is issued and the
+	// moment truth and lister show it, a call that starts still sees the old size but may read the new one later
+	adminSize int
 }
 
 func (r *Round) poolSizeNow(name string) int {
@@ -84,6 +87,9 @@ func (r *Round) observePool(po *poolObs, name string) {
 	if now > b {
 		b = now
 	}
+	if po.adminSize > b {
+		b = po.adminSize
+	}
 	for _, v := range po.active {
 		if v > b {
 			b = v
@@ -112,8 +118,15 @@ func (r *Round) observePool(po *poolObs, name string) {
 	po.observed++
 }
 
+func (po *poolObs) settle() {
+	po.mu.Lock()
+	po.adminSize = -1
+	po.mu.Unlock()
+}
+
 func (po *poolObs) raise(sz int) {
 	po.mu.Lock()
+	po.adminSize = sz
 	if sz > po.windowMax {
 		po.windowMax = sz
 	}
@@ -136,13 +149,16 @@ func roundC07(seed int64, idx int) *Round {
 	}
 	size := 1 + rng.Intn(3)
 	ndp := 1 + rng.Intn(3)
-	po := &poolObs{windowMax: size, active: map[int64]int{}}
+	po := &poolObs{windowMax: size, active: map[int64]int{}, adminSize: -1}
 	r.preOp = func(op string) func() {
 		if op != "filter" && op != "pool-set" && op != "bind" {
 			return nil
 		}
 		vis := r.poolSizeNow("pa")
 		po.mu.Lock()
+		if po.adminSize > vis {
+			vis = po.adminSize
+		}
 		po.nextID++
 		id := po.nextID
 		po.active[id] = vis
@@ -209,6 +225,7 @@ func roundC07(seed int64, idx int) *Round {
 			})
 			r.W.SyncPoolsFromTruth()
 			r.observePool(po, "pa")
+			po.settle()
 			time.Sleep(time.Duration(arng.Intn(800)) * time.Microsecond)
 		}
 	}()
